@@ -161,9 +161,11 @@ Definition flat_state (gst : gstate) : state :=
   {| sregs := fun id => b2z (gregs gst ((id - NN) / KK) (Z.to_nat ((id - NN) mod KK)));
      smems := gmems gst |}.
 
-(* ids are usable: original ids are positive and pairwise distinct *)
-Definition ids_okb : bool :=
-  forallb (fun x => 0 <? wname x) (wires nl)
-  && forallb (fun x => Nat.eqb (length (filter (fun y => wname y =? wname x) (wires nl))) 1) (wires nl).
-
 End Flatten.
+
+(* ids are usable: original wire ids positive and strictly increasing in `wires`
+   (py/nlx.py numbers the wires 1..n in list order) *)
+Fixpoint incb (lo : Z) (ws : list wire) : bool :=
+  match ws with [] => true | x :: r => (lo <? wname x) && incb (wname x) r end.
+
+Definition ids_okb (nl : netlist) : bool := incb 0 (wires nl).
